@@ -102,6 +102,9 @@ func (e *Enum) Table(elem reflect.Type, max int) [][]*Term {
 					add(Slice(sc, l, nil, r))
 					add(Call(sc, "FnII", l, r))
 					add(Call(sc, "Cat", l, r))
+					if e.Sc.AllowAny && (l.K == KNil || r.K == KNil || n <= 3) {
+						add(Call(sc, "EqAny", l, r))
+					}
 					add(Method(sc, l, "Plus", false, r))
 					if n <= 4 {
 						add(Array(l, r), nil)
